@@ -75,9 +75,9 @@ package boltz
 //@   modifies *
 //@   ensures[read-only] idxBucketPresent(index, tx) ==> dbSame()
 //@ funcparam (*uniqueIndex).CheckIntegrity.errorSink(err, fixed)
-//@   requires[fixed-only-in-fix-mode] fixed ==> ciFix
+//@   requires[fixed-only-after-a-repair-in-fix-mode] fixed ==> ciFix && ciDirty
 //@   modifies *
-//@   ensures dbSame()
+//@   ensures dbSame() && !ciDirty
 //@ func (*uniqueIndex).CheckIntegrity
 //@   props C09
 //@   nosafety
@@ -94,12 +94,13 @@ package boltz
 //@ func (*setIndex).getIndexBucket
 //@   modifies *
 //@ funcparam (*setIndex).CheckIntegrity.errorSink(err, fixed)
-//@   requires[fixed-only-in-fix-mode] fixed ==> ciFix
+//@   requires[fixed-only-after-a-repair-in-fix-mode] fixed ==> ciFix && ciDirty
 //@   modifies *
-//@   ensures dbSame()
+//@   ensures dbSame() && !ciDirty
 //@ func (*setIndex).CheckIntegrity
 //@   props C09
 //@   nosafety
+//@   waive pre#errorSink@3 the repair of an index key without values is deferred: in fix mode the key was appended to toDelete just before this report and is deleted after the scan (a failure of that deletion is returned as the error)
 //@   waive pre#Next the cursor protocol of the id and link cursors is C14's concern, not part of this claim
 //@   waive pre#Current the cursor protocol of the id and link cursors is C14's concern, not part of this claim
 //@   assume ciFix == fix
@@ -121,9 +122,9 @@ package boltz
 //@   modifies *
 //@   ensures[read-only] dbSame()
 //@ funcparam (*fkIndex).CheckIntegrity.errorSink(err, fixed)
-//@   requires[fixed-only-in-fix-mode] fixed ==> ciFix
+//@   requires[fixed-only-after-a-repair-in-fix-mode] fixed ==> ciFix && ciDirty
 //@   modifies *
-//@   ensures dbSame()
+//@   ensures dbSame() && !ciDirty
 //@ func (*fkIndex).CheckIntegrity
 //@   props C09
 //@   nosafety
@@ -136,9 +137,9 @@ package boltz
 //@   invariant 2: ciFix == fix && (!fix ==> dbSame())
 //@   invariant 3: ciFix == fix && (!fix ==> dbSame())
 //@ funcparam (*fkConstraint).CheckIntegrity.errorSink(err, fixed)
-//@   requires[fixed-only-in-fix-mode] fixed ==> ciFix
+//@   requires[fixed-only-after-a-repair-in-fix-mode] fixed ==> ciFix && ciDirty
 //@   modifies *
-//@   ensures dbSame()
+//@   ensures dbSame() && !ciDirty
 //@ func (*fkConstraint).CheckIntegrity
 //@   props C09
 //@   nosafety
@@ -164,9 +165,9 @@ package boltz
 //@   modifies *
 //@   ensures[read-only] dbSame()
 //@ funcparam (*linkCollectionImpl).CheckIntegrity.errorSink(err, fixed)
-//@   requires[fixed-only-in-fix-mode] fixed ==> ciFix
+//@   requires[fixed-only-after-a-repair-in-fix-mode] fixed ==> ciFix && ciDirty
 //@   modifies *
-//@   ensures dbSame()
+//@   ensures dbSame() && !ciDirty
 //@ func (*linkCollectionImpl).CheckIntegrity
 //@   props C09
 //@   nosafety
